@@ -1089,6 +1089,12 @@ class Path:
             dn = {ast.Lt: ('__lt__', '__gt__'), ast.LtE: ('__le__', '__ge__'),
                   ast.Gt: ('__gt__', '__lt__'), ast.GtE: ('__ge__', '__le__')}[op]
             NI = ExtV('builtins.NotImplemented')
+            if isinstance(a, SObj) and isinstance(b, SObj) and self._rcomparable(b.cls, a.cls):
+                # @rcomparable(A) on class B (fpy2.utils.decorator) rebinds A's comparison methods:
+                # for an operand of class B they evaluate the reversed comparison  b <rev-op> a
+                m = self.index.find_method(b.cls, dn[1])
+                if m is not None:
+                    return self.call_function(FuncV(m, b), [a], {})
             if isinstance(a, SObj):
                 m = self.index.find_method(a.cls, dn[0])
                 if m is not None:
@@ -1119,6 +1125,17 @@ class Path:
             raise SymRaise(mk_exc('TypeError'))
         r = {ast.Lt: x < y, ast.LtE: x <= y, ast.Gt: x > y, ast.GtE: x >= y}[op]
         return simp(r)
+
+    def _rcomparable(self, bcls, acls) -> bool:
+        """is class `bcls` decorated with @rcomparable(A) for a class A that `acls` derives from?"""
+        for d in getattr(bcls.node, 'decorator_list', []):
+            if isinstance(d, ast.Call) and getattr(d.func, 'id', getattr(d.func, 'attr', None)) == 'rcomparable' \
+                    and len(d.args) == 1 and isinstance(d.args[0], ast.Name):
+                r = self.index.lookup(bcls.module.name, d.args[0].id)
+                if r is not None and r[0] == 'class' and self.index.is_subclass(acls, r[1]) \
+                        and not self.index.is_subclass(acls, bcls):
+                    return True
+        return False
 
     def enum_value(self, e: EnumV):
         vals = self.ex.enum_values(e.cls)
